@@ -7,7 +7,7 @@
    fragment; terminals are matched through the naming model that C10 proves.  Proved here, for all inputs: *)
 Require Import Hdl21.Base.PyInt Hdl21.Spec.PySlice Hdl21.Model.Slice Hdl21.Model.Resolve Hdl21.Base.Design
                Hdl21.Spec.Nets Hdl21.Base.Package Hdl21.Base.C01BDesign Hdl21.Spec.C01BNets Hdl21.Spec.C01BWf
-               Hdl21.Proofs.FunGraph Hdl21.Proofs.C01BProofs Hdl21.Corr.C01B.
+               Hdl21.Spec.C01BLower Hdl21.Proofs.FunGraph Hdl21.Proofs.C01BProofs Hdl21.Proofs.C01BLowerProofs Hdl21.Corr.C01B.
 Require Hdl21.Spec.BundleSpec.
 
 (* 1. "on one net" in the bundle fragment = equivalence closure of the sentence "member m, bit k of a port ~ member m, bit k of
@@ -100,6 +100,47 @@ Theorem C01B_step_up d i e p' s mp k m : bmod_at d ((i, e) :: p') = Ok m -> is_b
 Proof. exact (bstep_up d i e p' s mp k m). Qed.
 Print Assumptions C01B_step_up.
 
+(* 5. THE LOWERING LEMMA.  `lower fl d` (Spec/C01BLower.v) flattens a bundle design member-wise into a design of the core
+      fragment: bundle instances become one signal per member path, a bundle connection becomes one connection per member path
+      (to the flat signal / member expression / flat port of the referred instance / a no-connect), a Pair becomes an array of
+      two.  `fl` is ANY naming of members that is injective on every module (names_ok — what C10_names establishes for the
+      implementation's naming).  The node map phi commutes with the one-step maps: flattening a connection member-wise joins
+      exactly what the path-based meaning joins. *)
+Theorem C01B_lower_step fl d n n' :
+  names_ok fl d = true -> pairs_ok d = true -> bnode_ok d n = true ->
+  bstep d n = Ok n' -> step (lower fl d) (phi fl n) = Ok (phi fl n').
+Proof. intros Hn Hp. exact (lower_step fl d Hn Hp n n'). Qed.
+Print Assumptions C01B_lower_step.
+
+(* 5a. on the nodes of the design the flat names tell all members apart *)
+Theorem C01B_phi_injective fl d a b :
+  names_ok fl d = true -> bnode_ok d a = true -> bnode_ok d b = true -> phi fl a = phi fl b -> a = b.
+Proof. intros Hn. exact (phi_inj fl d Hn a b). Qed.
+Print Assumptions C01B_phi_injective.
+
+(* 6. hence member-wise flattening preserves nets: on every closed set of nodes of the design, two nodes are joined by the
+      bundle design's connections iff their images are joined by the flattened design's connections (Spec/Nets.v, total step) *)
+Theorem C01B_lower_same_nets fl d (f : bnode -> bnode) (nodes : list bnode) :
+  names_ok fl d = true -> pairs_ok d = true ->
+  (forall x, In x nodes -> bstep d x = Ok (f x)) -> (forall x, In x nodes -> In (f x) nodes) ->
+  (forall x, In x nodes -> bnode_ok d x = true) ->
+  forall x y, In x nodes -> In y nodes ->
+    (conn bnode f x y <-> conn node (stepf (lower fl d)) (phi fl x) (phi fl y)).
+Proof. intros Hn Hp. exact (lower_same_nets fl d Hn Hp f nodes). Qed.
+Print Assumptions C01B_lower_same_nets.
+
+(* 6a. ... and the executable labels agree: nets (lower d) ~ nets_b d on any list of terminals inside such a node set.
+       PARTIAL in one respect (see notes/C01B.md): that the nodes reachable from the terminals of a VALID design (wf_bdesign)
+       form such a closed, typed set on which bstep never fails is a hypothesis here, not derived from wf_bdesign; the
+       correspondence run evaluates both sides on every generated design (Corr/C01B.v:chk_lower) and fails closed. *)
+Theorem C01B_lower_labels_partial fl d (f : bnode -> bnode) (nodes : list bnode) fuel ts :
+  names_ok fl d = true -> pairs_ok d = true ->
+  (forall x, In x nodes -> bstep d x = Ok (f x)) -> (forall x, In x nodes -> In (f x) nodes) ->
+  (forall x, In x nodes -> bnode_ok d x = true) -> (forall t, In t ts -> In t nodes) ->
+  labels (lower fl d) fuel (map (phi fl) ts) = blabels d fuel ts.
+Proof. intros Hn Hp H1 H2 H3. exact (labels_lower fl d Hn Hp f nodes H1 H2 H3 fuel ts). Qed.
+Print Assumptions C01B_lower_labels_partial.
+
 (* ---------- non-vacuity ---------- *)
 (* the corpus design of the seeded change C01-C: scalar lo_q next to the nested member lo.q, held by Top and passed to Inner *)
 Definition ex0 : bdesign :=
@@ -163,3 +204,32 @@ Example C01B_ex_conservative :
   exists ts, terminals ex_core = Ok ts /\
     blabels (embed ex_core) (design_fuel ex_core) (map embed_node (map fst ts)) = Ok [0; 1; 0; 3].
 Proof. eexists. split; vm_compute; reflexivity. Qed.
+
+(* the lowering lemma is not idle: the coinciding-names design under the injective naming b.m1.m2 satisfies its hypotheses,
+   and the flattened design has the same nets; the joined naming b_m1_m2 is NOT injective there (lo_q / lo.q) *)
+Fixpoint us_join (l : list name) : name := match l with [] => "" | x :: r => sapp "_" (sapp x (us_join r)) end.
+Definition us_name (b : name) (q : mpath) : name := sapp b (us_join q).
+Example C01B_ex_lowering :
+  names_ok dot_name ex0 = true /\ pairs_ok ex0 = true /\ forallb (bnode_ok ex0) ex0_terms = true /\
+  labels (lower dot_name ex0) (bdesign_fuel ex0) (map (phi dot_name) ex0_terms) = Ok [0; 1; 2; 0; 1; 2] /\
+  names_ok us_name ex0 = false.
+Proof. repeat split; vm_compute; reflexivity. Qed.
+
+(* Pairs: a Diff bundle, anonymous bundles {p, n}, a scalar, a no-connect *)
+Definition ex_pair : bdesign :=
+  {| bd_mods := [{| bm_name := "R2"; bm_ports := [("a", 1); ("b", 2)]; bm_sigs := [];
+     bm_bundles := [];
+     bm_insts := [{| bi_name := "e"; bi_n := 0; bi_pair := false; bi_of := (TDev "/Pin{tag=int:1;}" [("a", 1)]); bi_conns := [("a", (BXSx (XSig 0%N 1)))] |}; {| bi_name := "f"; bi_n := 0; bi_pair := false; bi_of := (TDev "/Pin2{tag=int:1;}" [("a", 2)]); bi_conns := [("a", (BXSx (XSig 1%N 2)))] |}];
+     bm_leaves := [(0%N, BLSig "a"); (1%N, BLSig "b")] |}; {| bm_name := "T1"; bm_ports := []; bm_sigs := [("s", 1); ("w", 2); ("v", 2)];
+     bm_bundles := [(false, (BundleSpec.BT "d" false 0%nat None [(BundleSpec.Build_leaf "p" 1 false BundleSpec.DNone (Some "SOURCE") (Some "SINK")); (BundleSpec.Build_leaf "n" 1 false BundleSpec.DNone (Some "SOURCE") (Some "SINK"))] []))];
+     bm_insts := [{| bi_name := "pr"; bi_n := 0; bi_pair := true; bi_of := (TMod 0%nat); bi_conns := [("a", (BXInst "d" [])); ("b", (BXAnon [("p", (BXSx (XSig 0%N 2))); ("n", (BXSx (XSig 1%N 2)))]))] |}; {| bi_name := "pq"; bi_n := 0; bi_pair := true; bi_of := (TMod 0%nat); bi_conns := [("a", (BXSx (XSig 2%N 1))); ("b", (BXSx (XSig 3%N 2)))] |}; {| bi_name := "pz"; bi_n := 0; bi_pair := true; bi_of := (TMod 0%nat); bi_conns := [("a", (BXAnon [("p", (BXSx (XSig 4%N 1))); ("n", (BXSx (XSig 5%N 1)))])); ("b", (BXSx (XSig 0%N 2)))] |}];
+     bm_leaves := [(0%N, BLSig "w"); (1%N, BLSig "v"); (2%N, BLSig "s"); (3%N, BLNc 1%N); (4%N, BLMem "d" ["n"]); (5%N, BLMem "d" ["p"])] |}]; bd_top := 1%nat |}.
+Definition ex_pair_terms : list bnode :=
+  [(NBPort [("pr", 0)] "e" 0 "a" [] 0); (NBPort [("pr", 0)] "f" 0 "a" [] 0); (NBPort [("pr", 0)] "f" 0 "a" [] 1); (NBPort [("pr", 1)] "e" 0 "a" [] 0); (NBPort [("pr", 1)] "f" 0 "a" [] 0); (NBPort [("pr", 1)] "f" 0 "a" [] 1); (NBPort [("pq", 0)] "e" 0 "a" [] 0); (NBPort [("pq", 0)] "f" 0 "a" [] 0); (NBPort [("pq", 0)] "f" 0 "a" [] 1); (NBPort [("pq", 1)] "e" 0 "a" [] 0); (NBPort [("pq", 1)] "f" 0 "a" [] 0); (NBPort [("pq", 1)] "f" 0 "a" [] 1); (NBPort [("pz", 0)] "e" 0 "a" [] 0); (NBPort [("pz", 0)] "f" 0 "a" [] 0); (NBPort [("pz", 0)] "f" 0 "a" [] 1); (NBPort [("pz", 1)] "e" 0 "a" [] 0); (NBPort [("pz", 1)] "f" 0 "a" [] 0); (NBPort [("pz", 1)] "f" 0 "a" [] 1)].
+
+Example C01B_ex_pairs :
+  wf_bdesign ex_pair = Ok tt /\ names_ok dot_name ex_pair = true /\ pairs_ok ex_pair = true /\
+  blabels ex_pair (bdesign_fuel ex_pair) ex_pair_terms = Ok [0; 1; 2; 3; 4; 5; 6; 7; 8; 6; 10; 11; 3; 1; 2; 0; 1; 2] /\
+  labels (lower dot_name ex_pair) (bdesign_fuel ex_pair) (map (phi dot_name) ex_pair_terms)
+  = Ok [0; 1; 2; 3; 4; 5; 6; 7; 8; 6; 10; 11; 3; 1; 2; 0; 1; 2].
+Proof. repeat split; vm_compute; reflexivity. Qed.
